@@ -14,6 +14,7 @@ LEVEL_TEXT = (
     'each remote speaker decodes what arrives with the independent reference codec and compares with the structured values and the RFC '
     'defaults for that session. The schedule is not what this property quantifies over: segmentation/pass cost vary only as a metamorphic side condition.'
     ' Routes differing only by prefix and next hop (same attribute values) are announced together.'
+    ' RFC 8950 on a fifth of the plans (IPv4 unicast routes with an IPv6 next hop); extended communities at the 65535/65536 AS boundary.'
 )
 LEVEL_NOTE = 'trusts: the reference codec (refbgp) and the text generator; session-destroying faults are off in these runs'
 DESIGN_REF = 'DESIGN.md section 5, C01'
